@@ -16,7 +16,7 @@ from lib.common import log
 SPEC = common.SPEC / "pool"
 REPO_SRC = ["src/threading/ThreadPool.cpp", "src/threading/Thread.cpp", "src/threading/Runnable.cpp"]
 FLAGS = ["-O1", "-g", "-UNDEBUG", "-fno-omit-frame-pointer"]
-P_EVENTS = {"Begin", "Submit", "StartRet", "RunBegin", "RunEnd", "Destroy", "ClearCall", "ClearRet", "StopCall", "StopRet",
+P_EVENTS = {"MaxSet", "Begin", "Submit", "StartRet", "RunBegin", "RunEnd", "Destroy", "ClearCall", "ClearRet", "StopCall", "StopRet",
             "WorkerStart", "WorkerExit", "Quiescent", "Done", "Deadlock", "Crash", "TooLong", "RunOnDead", "DestroyedWhileRunning"}
 C08_EVENTS = {"StopRet", "WorkerStart", "WorkerExit"}
 
@@ -136,7 +136,9 @@ def y_scripts(seed, count):
                 prog += "T"
             elif r < 0.90:
                 prog += "Q"
-            elif r < 0.95 and mx >= 2 and tasks < 5:
+            elif r < 0.925 and mx >= 2 and "S" in prog:
+                prog += "L"     # setMaxThreadCount(1) while workers exist
+            elif r < 0.95 and mx >= 2 and tasks < 5 and "L" not in prog:
                 prog += "M"     # a second client thread calls start() concurrently with the owner (3 + 2 tasks)
                 tasks += 5
             else:
